@@ -15,21 +15,9 @@ variable {N : String → Prop} {p : α → Bool}
 
 section block
 attribute [local irreducible] CtxOK Ctx.mergeAdd Ctx.mergeSub Ctx.mulBy Ctx.divBy Ctx.addRhs Ctx.addVar
-<<<<<<< HEAD
-<<<<<<< HEAD
-  Ctx.fromRhs Ctx.fromVar Ctx.new ctxToExp sumExps isAux
-variable (hN : N "") (hp : Closed p) (hB : BTrack p)
-include hN hp hB
-=======
-  Ctx.fromRhs Ctx.fromVar Ctx.new ctxToExp sumExps isAux retainedFlagsE
-variable (hN : N "") (hp : Closed p)
-include hN hp
->>>>>>> agent-linproof
-=======
   Ctx.fromRhs Ctx.fromVar Ctx.new ctxToExp sumExps isAux retainedFlagsE
 variable (hN : N "") (hp : Closed p) (hB : BTrack p)
 include hN hp hB
->>>>>>> agent-c08proof
 
 set_option maxHeartbeats 1000000 in
 theorem linExp_block :
